@@ -488,10 +488,10 @@ CHECKS = {
                  "answered after that window had ended; request-nobody-made-was-counted when the server executed the script with arguments no call had; over-admission / "
                  "not-a-fixed-window-counter otherwise. non-trivial = a key whose judged history had calls of different tasks overlapping; distinct = distinct event-log hash"),
         "parts": [
-            {"module": "rueidislimiter", "scenario": "limiter", "quick": 900, "thorough": 120000},
-            {"module": "rueidislimiter", "scenario": "limiter", "variant": "faults", "quick": 600, "thorough": 80000},
-            {"module": "rueidislimiter", "scenario": "limiter", "variant": "skew", "quick": 300, "thorough": 30000},
-            {"module": "rueidislimiter", "scenario": "limiter", "variant": "deadline", "quick": 700, "thorough": 80000},
+            {"module": "rueidislimiter", "scenario": "limiter", "quick": 1800, "thorough": 40000},
+            {"module": "rueidislimiter", "scenario": "limiter", "variant": "faults", "quick": 1200, "thorough": 25000},
+            {"module": "rueidislimiter", "scenario": "limiter", "variant": "skew", "quick": 400, "thorough": 10000},
+            {"module": "rueidislimiter", "scenario": "limiter", "variant": "deadline", "quick": 1200, "thorough": 25000},
         ],
         "expected_probes": ["window-rollover", "concurrent-calls-on-one-identifier", "request-denied", "window-filled-exactly", "call-exactly-at-window-boundary",
                             "identifier-shared-by-limiter-instances", "custom-rate-limit-used", "noscript-fallback-to-eval", "errored-call-possibly-counted"],
@@ -505,7 +505,12 @@ CHECKS = {
                         "rueidislimiter keeps its command arguments in a sync.Pool buffer whose reuse is otherwise decided by the Go runtime",
                         "every client uses one connection (PipelineMultiplex -1): with several, the wire of each command comes from util.FastRand, and callers woken by one delivery that "
                         "send a follow-up command (NOSCRIPT, then EVAL) draw from the seeded stand-in in an order chosen by the Go runtime; connections of different limiter instances still interleave",
-                        "porcupine verdict Unknown (step budget exhausted) is counted as not judged"],
+                        "faults strike connections that have finished their handshake and carried workload commands, and in the faults part every task has a limiter instance (connection) of its own, so a "
+                        "broken connection has at most one caller in flight; the log hash covers the workload phase, not the closing of the clients afterwards. Residual: the teardown of a broken pipe inside "
+                        "rueidis (writer and reader contending for a ring slot) occasionally adds a lock-grant event: 2 divergent log hashes in 300 seeds x 9 processes of the faults part under heavy machine "
+                        "load, none in 200 x 9 of each other part; verdicts do not depend on it, and a replay whose hash differs is reported by the driver as exit 2, never as a verdict",
+                        "the step budget of the linearizability search (20000 model steps, at most 256 alternative states) is deterministic; porcupine's wall-clock timeout is not used because it would be a timer "
+                        "of the fake clock of the bubble the check runs in; budget exhausted = verdict Unknown = counted as not judged (linearizability-undecided)"],
     },
     "C41": {
         "level": "exploration",
